@@ -23,8 +23,9 @@ LEVEL = 'proof'
 THEOREMS = ['CC.C03_perm', 'CC.C03_rename', 'CC.C03_reverse', 'CC.C03_reref',
             'CC.C03_reported_perm', 'CC.C03_reported_rename', 'CC.C03_reported_reverse', 'CC.C03_reported_reref',
             'CC.C01_unique', 'CC.C01_sound', 'CC.C01_reported_is_the_solution']
-LEAN_MODULE_EXTRA = ['CC.Properties.C01']
-OPEN_STATEMENTS = ['C03_port / C03_statespace / C03_transient as theorems (need the C06/C10/C12 models); decided per instance by the metamorphic oracle']
+THEOREMS += ['CC.C06_port_invariant_perm', 'CC.C06_port_invariant_rename', 'CC.C06_port_invariant_reverse', 'CC.C06_port_invariant_reref']
+LEAN_MODULE_EXTRA = ['CC.Properties.C01', 'CC.Properties.C06']
+OPEN_STATEMENTS = ['C03_statespace / C03_transient as theorems (need the C10 transfer theorem); decided per instance by the metamorphic oracle (state-space transfer and transient stream)']
 ASSUMPTIONS = ['invariance theorems are about the Spec; equality of reported values uses C01_sound + C01_unique (well-posed networks)',
                'binary64 results compared within 1e-8 relative on instances with cond(A) < 1e8']
 
